@@ -1,8 +1,33 @@
 import EdpVerif.Drv.Common
+import EdpVerif.Impl.Convert
 namespace Edp.Drv
+open Edp
 
-/-- driver requests of property C10 (stub: nothing handled yet) -/
+/-- driver requests of property C10 (and of the conversion clause of C13) -/
 def handleC10 : List String → Option String
+  -- tie: a sequence of clone / to-owned / from-owned conversions (`c` clone, `v` via BorrowedTerm, `w` via a cloned BorrowedTerm, `m` move)
+  | ["c10conv", t, ops] => some <| match getTerm t with
+    | .ok t => (applyConvs (convsOfText ops) t).text
+    | .error e => "bad-op " ++ e
+  -- tie: `BorrowedTerm::from(&t)`: the tree (its structural text) and the ownership flag of every `Cow` in pre-order
+  | ["c10from", t] => some <| match getTerm t with
+    | .ok t => let b := fromOwned t; (erase b).text ++ " " ++ flagsText (flagsOf b)
+    | .error e => "bad-op " ++ e
+  -- tie: `to_owned` of the tree the harness describes (structural text + flags)
+  | ["c10own", t, fl] => some <| match getTerm t with
+    | .ok t => (toOwned (tagWith t (flagsOfText fl)).1).text
+    | .error e => "bad-op " ++ e
+  -- tie: `is_borrowed` of that tree
+  | ["c10isb", t, fl] => some <| match getTerm t with
+    | .ok t => toString (isBorrowed (tagWith t (flagsOfText fl)).1)
+    | .error e => "bad-op " ++ e
+  -- oracle: the bytes of the identifier as received occur, as one block, in what was written
+  | ["c10occurs", span, out] => some <| match getHex span, getHex out with
+    | .ok s, .ok o => if occursIn s o then "ok" else "FAIL the received identifier bytes do not occur in the output"
+    | _, _ => "bad-op bad-hex"
+  -- oracle: `is_borrowed` says whether some `Cow` of the tree is borrowed (read off the flags, no model involved)
+  | ["c10cow", fl, isb] => some <|
+    if (fl.toList.contains 'b') == (isb == "true") then "ok" else "FAIL is_borrowed = " ++ isb ++ " on a tree with ownership flags " ++ fl
   | _ => none
 
 end Edp.Drv
